@@ -302,6 +302,13 @@ def run(rep):
     for c, meta in exact_cases(sc.src, sc.dir + '/heXXXXXX'):
         cases.append(c)
         xmeta[id(c)] = meta
+    # look-alike paths: file names, maildir directories and header texts that spell references and macros, so that the value of ${path} and the
+    # captured texts look like template syntax (tools/c12paths.py; the same family at process level further down)
+    import c12paths
+    pcases = {}
+    for c in c12paths.unit_cases(rng, 1500 if rep.tier == 'quick' else 60000):
+        cases.append(c)
+        pcases[id(c)] = c
     ec.run_cases(h, env, cases, want_spec=False)
     corr_bad, checks, faults = [], [], []
     for c in cases:
@@ -350,6 +357,11 @@ def run(rep):
     bstat = {'templates': len(btemplates), 'cases': len(bcases), 'judged': 0, 'outside_spec_model_only': 0, 'spec_error': 0, 'impl_error': 0,
              'model_mismatches': sum(1 for c in corr_bad if id(c) in bcases),
              'not_evaluated': sum(1 for c in cases if id(c) in bcases and (c.model is None or not (c.impl or '').startswith('MATCH')))}
+    import re as _re
+    lookalike = lambda c: bool(_re.search(rb'\\[0-9]|\$\{', vlib.unhex(c.path)[len(sc.dir):])) if c.path else False
+    pstat = {'cases': len(pcases), 'judged': 0, 'judged_with_reference_or_macro_in_path': 0, 'values_compared': 0,
+             'not_evaluated': sum(1 for c in pcases.values() if c.model is None or not (c.impl or '').startswith('MATCH')),
+             'model_mismatches': sum(1 for c in corr_bad if id(c) in pcases)}
     xstat = {'cases': len(xmeta), 'judged': 0, 'lengths': lbuf.exact_lengths(sc.src, 60, 1100),
              'not_evaluated': sum(1 for c in cases if id(c) in xmeta and (c.model is None or not (c.impl or '').startswith('MATCH'))),
              'model_mismatches': sum(1 for c in corr_bad if id(c) in xmeta)}
@@ -366,6 +378,9 @@ def run(rep):
             stat['undefined'] += 1
             continue
         xstat['judged'] += id(c) in xmeta
+        if id(c) in pcases:
+            pstat['judged'] += 1
+            pstat['judged_with_reference_or_macro_in_path'] += lookalike(c)
         exp_err = any(r == 'ERROR' for r in res)
         impl_err = len(e) >= 4 and e[3] == 'INTERR'
         if exp_err or impl_err:
@@ -375,6 +390,7 @@ def run(rep):
             continue
         post = ec.parse_ml(e[3])
         labels = {}
+        pstat['values_compared'] += id(c) in pcases
         for (kind, i, tmpl, caps), r in zip(items, res):
             want = vlib.unhex(r[3:]) if r.startswith('OK ') else b''
             if b'\\' in tmpl or b'${' in tmpl:
@@ -430,10 +446,19 @@ def run(rep):
     # an interpolated move destination combined with flag actions of the same rule, on the real binary (tools/c12merge.py; F26)
     import proc
     import c12merge
-    mgstat = c12merge.stage(rep, proc.Tools(sc))
+    ptools = proc.Tools(sc)
+    mgstat = c12merge.stage(rep, ptools)
+    # message paths and captured texts that look like template syntax, on the real binary (tools/c12paths.py)
+    ppstat = c12paths.stage(rep, ptools)
     vlib.lean_conclude(rep)
     rep.coverage.update({
         'move_flag_merge': mgstat,
+        'lookalike_paths_process': ppstat,
+        'lookalike_paths_unit': dict(pstat, rule='rules with two capturing patterns (flags l/u/i) on messages whose file name, maildir directory (a third of the '
+                                                 'cases), Subject, To, X-Label and body are drawn from the alphabet `\\ \\\\ . $ { } path x ${path} ${x} ${ \\0 \\1 \\2 \\9 '
+                                                 '\\057 \\072 \\1.2 \\0.1 digits`: the value of ${path} and the captured texts spell references and macros; templates mix '
+                                                 '\\N, \\M.N, \\N\\., ${path} and literals of the same alphabet in move / label / exec / add-header; judged like the '
+                                                 'generated rules (exact model comparison; every interpolated argument against Spec.interp)'),
         'macro_expansion': mstat,
         'macro_spec_failures': len(mbad),
         'macro_rule': 'C12_macros: strings over `$ { } ${name} ${path} ${nosuch} ${` in each of the 11 string positions of the grammar (move, label, '
@@ -473,6 +498,12 @@ def replay(rep, path):
     sc = vlib.Scratch()
     h, env = ec.harness(sc)
     vlib.lean_gate(rep, 'C12', sc, [])
+    if j.get('stage') == 'c12paths':
+        import proc
+        import c12paths
+        c12paths.replay(rep, proc.Tools(sc), j)
+        rep.coverage.update({'evaluations': 1, 'distinct_nontrivial': 1})
+        return
     if str(j.get('stage', '')).startswith('libks buffer'):
         lbuf.replay(rep, sc, j)
         rep.coverage.update({'evaluations': 1, 'distinct_nontrivial': 1})
